@@ -32,7 +32,7 @@ theorem paraLevel_le_one (d : Option Nat) (hd : ∀ l, d = some l → l ≤ 1) (
     does not panic and its levels are the expansion of the levels UAX #9 assigns to the characters
     (classes after X5c as reported, bracket property from the data source).  Also: the reported
     classes are X5c of the raw classes and the level is P2/P3's (`C02`). -/
-theorem single_para_levels (ds : DataSource) (hweak : WeakInv ds) (hbc : BracketClassesOK ds) (t : Text)
+theorem single_para_levels (ds : DataSource) (hweak : WeakInv ds) (t : Text)
     (hwf : t.WF) (hfsi : FSIWidth ds t) (d : Option Nat) (hd : ∀ l, d = some l → l ≤ 1)
     (hB : ∀ c ∈ (raw ds t).dropLast, c ≠ B) :
     let ii := computeInitialInfo ds t d false
@@ -51,17 +51,6 @@ theorem single_para_levels (ds : DataSource) (hweak : WeakInv ds) (hbc : Bracket
   have hu : UniformOn t ii.classes := Props.C09.classes_uniformOn ds t d hwf hfsi false
   have hnb : NoInnerB (contract t ii.classes ON) := by
     rw [hcon]; exact resolveFSI_noInnerB _ hB
-  have hbc' : ∀ s ∈ t.segs, (ds.brk s.cp).isSome = true → brkClassOK (ii.classes.getD s.start ON) := by
-    intro s hs hb
-    obtain ⟨i, hi, rfl⟩ := List.getElem_of_mem hs
-    have h1 : (contract t ii.classes ON)[i]? = some (ii.classes.getD t.segs[i].start ON) := by
-      simp [contract, List.getElem?_map, List.getElem?_eq_getElem hi]
-    rw [hcon] at h1
-    obtain ⟨c, hc, hr⟩ := resolveFSI_get _ i _ h1
-    have hc' : c = ds.cls t.segs[i].cp := by
-      simp only [raw, List.getElem?_map, List.getElem?_eq_getElem hi, Option.map_some, Option.some.injEq] at hc
-      exact hc.symm
-    exact fsiRel_brk hr (by rw [hc']; exact hbc _ hb)
   have hpure : ii.lastPureLtr = true → ∀ x ∈ contract t ii.classes ON, pureClass x = true := by
     intro hp x hx
     rw [hf1] at hp
@@ -70,9 +59,9 @@ theorem single_para_levels (ds : DataSource) (hweak : WeakInv ds) (hbc : Bracket
     exact List.all_eq_true.1 hp' x hx
   have hiso : ii.lastHasIso = (contract t ii.classes ON).any isIsolateInitiator := by
     rw [hf2, hcon, resolveFSI_anyIso]; rfl
-  refine ⟨?_, specLevels_length hweak t ii.lastLevel hpl ii.classes hnb hbc', ?_, hlev⟩
+  refine ⟨?_, specLevels_length hweak t ii.lastLevel hpl ii.classes hnb, ?_, hlev⟩
   · rw [hiso]
-    exact paraLevels_chars hweak t hwf ii.lastLevel hpl ii.classes hlen hu hnb hbc' ii.lastPureLtr hpure
+    exact paraLevels_chars hweak t hwf ii.lastLevel hpl ii.classes hlen hu hnb ii.lastPureLtr hpure
   · rw [charsOf_cls, hcon]
 
 end UBidi.Lemmas.C01Compose
